@@ -257,6 +257,7 @@ def build(u):
     u.emit(LT, 'struct Tokens', pub_fields=True)
     u.raw('pub type LexingError = u8; /* opaque here: the parser never looks at lexing errors */')
     u.raw('#[verifier::external_body] pub struct TokenLocation { _p: u8 }')
+    u.include('spec/ltok_ok_spec.rs', kind='spec')
     u.include('spec/u_parse_lex_spec.rs', kind='spec')
     u.emit(LT, 'impl ValueTypeAndPayloadId', only=['value_type'])
     u.emit(LT, 'impl Tokens #1', only=LEX_TOKENS_FNS, rules=[rules.r20_param_patterns])
